@@ -42,6 +42,9 @@ ODE_SETS = {
     "sum-factor": {"H": {"factors": ["-zeta + Av"], "reactants": [["C"]]}},
     "diff-factors": {"CH": {"factors": ["Av - 0.5*zeta", "-2.0*Av - zeta/3.0"], "reactants": [["H"], ["C", "C2"]]}},
     "nodep-sum": {"C2": {"factors": ["-zeta + 2.0*Av"], "reactants": [[]]}},
+    # several target species in one modifier set (each term must reach its own species only)
+    "two-targets": {"C2": {"factors": ["zeta"], "reactants": [["C", "C"]]}, "H": {"factors": ["-0.5*Av"], "reactants": [["CH"]]}},
+    "three-targets": {"C": {"factors": ["1.5", "zeta"], "reactants": [["H"], ["C2"]]}, "CH": {"factors": ["-2.0"], "reactants": [["H", "C"]]}, "H": {"factors": ["Av"], "reactants": [["C2", "C2"]]}},
 }
 
 
